@@ -397,7 +397,8 @@ def arg_case_impl(chk, rng, family, fname, opts, make, compare_value=True, pre=N
                 return container(r, k, vals)
             f, kw = make(C)
             inp = dict(family=family, function=fname, options=opts, focus=focus, kinds=dict(chosen), values={k: v[1] for k, v in rec.items()},
-                       other_arguments={k: (v if isinstance(v, (int, float, bool, str, type(None))) else np.ma.filled(v, np.nan).tolist() if isinstance(v, np.ndarray) else type(v).__name__)
+                       other_arguments={k: (v if isinstance(v, (int, float, bool, str, type(None))) else np.ma.filled(v, np.nan).tolist() if isinstance(v, np.ndarray)
+                                            else v.asdict() if hasattr(v, 'asdict') else v if isinstance(v, dict) else type(v).__name__)
                                         for k, v in kw.items() if k not in rec})
             if not chk.begin('%s:%s:%s=%s' % (base_key, optstr, focus, kind), inp): continue
             chk.l3((base_key, optstr, focus, kind))
@@ -1025,6 +1026,73 @@ def k_memo_tables(chk, ctx, rng, tier):
             else: chk.k_ok('c20.memo:' + cache)
             getattr(a['mod'], cache).clear()
 
+def k_flow_effects(chk, ctx, rng):
+    """K: the alias-flow model (Lean analysis `Driver.Memo.arun` of the skeletons regenerated from the source, op `c20.flow`) against
+    the effects observed on the real functions of the demes front end: for every probed function the parameters observed to be
+    modified (deep byte snapshots before / after, union over the probe calls) are exactly the parameters the model says may be
+    modified — none for the public entry points, the documented ones for the helpers that work in place."""
+    dadi = ctx['dadi']; drv = ctx.get('driver')
+    if drv is None or not drv.ok():
+        chk.k_skipped += 1; return
+    try:
+        import demes
+    except ImportError:
+        chk.k_skipped += 1; return
+    D = dadi.Demes.Demes; U = dadi.Demes.DemesUtil
+    def graph(units='generations', gt=None, bend=0.0):
+        sc = float(gt or 1.0); kw = dict(time_units=units)
+        if gt: kw['generation_time'] = gt
+        b = demes.Builder(**kw)
+        b.add_deme('anc', epochs=[dict(start_size=1000.0, end_time=300 * sc)])
+        b.add_deme('A', ancestors=['anc'], epochs=[dict(start_size=float(rng.integers(800, 2000)), end_time=0)])
+        b.add_deme('B', ancestors=['anc'], epochs=[dict(start_size=float(rng.integers(300, 900)), end_time=bend * sc)])
+        return b.resolve()
+    t = float(rng.integers(4, 20)); gt = float(rng.choice([2.0, 25.0]))
+    xx = dadi.Numerics.default_grid(8)
+    def phi2():
+        return dadi.PhiManip.phi_1D_to_2D(xx, dadi.PhiManip.phi_1D(xx))
+    fr = float(rng.uniform(0.1, 0.4))
+    probes = {
+        'Demes.SFS': (D.SFS, [dict(g=graph(bend=t), sampled_demes=['A', 'B'], sample_sizes=[3, 2], pts=8),
+                              dict(g=graph(), sampled_demes=['A', 'B'], sample_sizes=[3, 2], pts=8, sample_times=[0.0, t]),
+                              dict(g=graph('years', gt), sampled_demes=['A', 'B'], sample_sizes=[3, 2], pts=8, sample_times=[0, 0]),
+                              dict(g=graph('years', gt, bend=t), sampled_demes=['B', 'A'], sample_sizes=[3, 2], pts=8)]),
+        'Spectrum.from_demes': (dadi.Spectrum.from_demes, [dict(g=graph(bend=t), sampled_demes=['A', 'B'], sample_sizes=[3, 2], pts=[6, 8]),
+                                                            dict(g=graph(), sampled_demes=['A', 'B'], sample_sizes=[3, 2], pts=[6, 8], sample_times=[0.0, t])]),
+        'Demes._convert_to_generations': (D._convert_to_generations, [dict(g=graph('years', gt), deme_sample_times=[0, gt * t])]),
+        'Demes._augment_with_ancient_samples': (D._augment_with_ancient_samples, [dict(g=graph(), sampled_demes=['A', 'B'], deme_sample_times=[0.0, t])]),
+        'Demes._apply_event': (D._apply_event, [dict(phi=phi2(), xx=xx, pop_ids=['A', 'B'], event=('marginalize', 'B'), interval=0, sample_sizes=[3, 2], demes_present={}),
+                                                dict(phi=phi2(), xx=xx, pop_ids=['A', 'B'], event=('pulses', ['A'], 'B', [fr]), interval=0, sample_sizes=[3, 2], demes_present={})]),
+        'Demes._admix_phi': (D._admix_phi, [dict(phi=phi2(), xx=xx, proportions=[fr], pop_ids=['A', 'B'], sources=['A'], dest='B')]),
+        'Demes._make_sorted_proportions_list': (D._make_sorted_proportions_list, [dict(proportions=[fr], source_i=[0], dest_i=1, pop_ids=['A', 'B'])]),
+        'Demes._split_phi': (D._split_phi, [dict(phi=phi2(), xx=xx, pop_ids=['A', 'B'], parent='A', new_pop_ids=['A', 'B', 'C'])]),
+        'DemesUtil.slice': (U.slice, [dict(g=graph(), t=t)]),
+        'DemesUtil.swipe': (U.swipe, [dict(g=graph(), t=t)]),
+    }
+    for name in sorted(probes):
+        f, calls = probes[name]
+        r = drv.ask('c20.flow %s' % name)
+        if not r.startswith('ok '):
+            chk.k_bad('c20.flow', dict(function=name), 'function of the demes front end', r, 'no skeleton of this function in the generated table'); continue
+        params = r.split(' ')[1].split(',') if r.split(' ')[1] else []
+        predicted = [] if r.split(' ')[2] == '-' else r.split(' ')[2].split(',')
+        observed = set(); note = None
+        for kw in calls:
+            if sorted(kw) != sorted(p for p in params if p in kw) or any(k not in params for k in kw):
+                note = 'probe passes %s, the function has the parameters %s' % (sorted(kw), params); break
+            before = {k: deep_snap(v) for k, v in kw.items()}
+            try:
+                f(**kw)
+            except Exception as e:
+                note = 'probe raises %r' % (e,)
+            observed |= {k for k in kw if deep_snap(kw[k]) != before[k]}
+        inp = dict(function=name, probes=[{k: (v if isinstance(v, (list, int, float, str, tuple)) else type(v).__name__) for k, v in kw.items()} for kw in calls])
+        if sorted(observed) == sorted(predicted) and (note is None or observed):
+            chk.k_ok('c20.flow:' + name)
+        else:
+            chk.k_bad('c20.flow:' + name, inp, sorted(observed), sorted(predicted),
+                      'parameters observed to be modified on the real function vs parameters the alias-flow model says may be modified' + ('' if note is None else ' (%s)' % note))
+
 class EventChk:
     """Check stub used inside the crash-isolated child: emits one JSON event per line.  `begin` announces the call about to be
     made (so that a hard crash - heap corruption in the C kernels - is attributed to it) and skips cases already done."""
@@ -1104,6 +1172,7 @@ def run(chk, ctx):
     layout_isolated(chk, ctx, tier)
     k_memo(chk, ctx, rng)
     k_memo_tables(chk, ctx, common.Rng(ctx['seed'], 'C20-K'), tier)
+    k_flow_effects(chk, ctx, common.Rng(ctx['seed'], 'C20-flow'))
     memo_histories(chk, ctx, common.Rng(ctx['seed'], 'C20-memo'), tier)
     history(chk, ctx, rng, tier)
 
